@@ -142,11 +142,16 @@ theorem kk_cRead (n : Nat) : KeepsK (cRead n) := kk_of_open (by
   split at h <;> try contradiction
   simp only [Option.some.injEq] at h; subst h
   exact ⟨by rw [hpc]; simp, rfl, fun q hq => Or.inr hq⟩)
-theorem kk_cReadErr (b f : Bool) : KeepsK (cReadErr b f) := kk_of_open (by
+theorem kk_cReadErr (p b f : Bool) : KeepsK (cReadErr p b f) := kk_of_open (by
   intro k k' h; unfold cReadErr at h; split at h <;> try contradiction
   rename_i hpc
   split at h <;> (simp only [Option.some.injEq] at h; subst h
                   exact ⟨by rw [hpc]; simp, rfl, fun q hq => Or.inr hq⟩))
+theorem kk_cDrainTick : KeepsK cDrainTick := kk_of_open (by
+  intro k k' h; unfold cDrainTick at h; split at h <;> try contradiction
+  rename_i hpc
+  simp only [Option.some.injEq] at h; subst h
+  exact ⟨by rw [hpc]; simp, rfl, fun q hq => Or.inr hq⟩)
 theorem kk_cEnqueued' : KeepsK cEnqueued' := kk_of_open (by
   intro k k' h; unfold cEnqueued' cEnqueued at h; split at h <;> simp at h
   rename_i i hpc
@@ -230,7 +235,7 @@ theorem kick_step {cfg : Cfg} (hci : cfg.ci = .kickOnly) {s s' : State} (a : Act
   | register c => exact kick_updConn kk_cRegister hn h
   | stamp c => exact kick_updConn kk_cStamp hn h
   | read c n => exact kick_updConn (kk_cRead n) hn h
-  | readErr c f => exact kick_updConn (kk_cReadErr _ f) hn h
+  | readErr c f => exact kick_updConn (kk_cReadErr _ _ f) hn h
   | age c => exact kick_updConn kk_cAge hn h
   | dispatch c => exact kick_updConn (kk_cDispatch _) hn h
   | enqueue c =>
@@ -283,6 +288,11 @@ theorem kick_step {cfg : Cfg} (hci : cfg.ci = .kickOnly) {s s' : State} (a : Act
   | write c i => exact kick_updConn (kk_cWrite i) hn h
   | skip c i => exact kick_updConn (kk_cSkip _ i) hn h
   | dec c i => exact kick_updConn (kk_cDec i) hn h
+  | drainTick c =>
+    simp only [step] at h
+    split at h <;> try contradiction
+    split at h <;> try contradiction
+    exact kick_updConn kk_cDrainTick hn h
   | drainClose c => exact kick_updConn kk_cDrainClose hn h
   | shutdownCall =>
     simp only [step] at h
